@@ -28,7 +28,7 @@ From Coq Require Import String List Bool ZArith NArith Arith QArith Lia Permutat
 From GV Require Import Base.Outcome Base.AMap Model.GState Model.Creation Model.Query Model.Derived
      Model.Partition Model.Louvain Model.LouvainOrd.
 From GV Require Import Proofs.AMapOk Proofs.WFDefs Proofs.HistoryOk Proofs.DerivedOk Proofs.DerivedContent
-     Proofs.LouvainOk Proofs.LouvainSets Proofs.LouvainStructOk Proofs.LouvainGenGraphOk Proofs.LouvainConvertOk.
+     Proofs.QueryOk Proofs.LouvainOk Proofs.LouvainSets Proofs.LouvainStructOk Proofs.LouvainGenGraphOk Proofs.LouvainConvertOk.
 Import ListNotations.
 
 (* ---------------- dropping the oracle state ---------------- *)
@@ -318,6 +318,146 @@ Section OrdOk.
     Qed.
   End EntryOk.
 End OrdOk.
+
+(* ================================================================================== *)
+(* The content-only iteration sites of louvain.rs (kind S of DESIGN.md 0.10.8), locally *)
+(* ================================================================================== *)
+(* Where the elements of a hash container only flow into another hash container, the model keeps
+   its list representation and no oracle is applied (permuting the iteration would permute the
+   representing list, not the set).  What can be said without a set-quotient of the whole
+   pipeline is said here, site by site: the CONTENT of the produced container - membership for a
+   set, lookup for a map - and the outcome class do not depend on the iteration order. *)
+Definition same_set (a b : list nat) : Prop := forall x, In x a <-> In x b.
+
+Definition outcome_rel {X} (R : X -> X -> Prop) (a b : outcome X) : Prop :=
+  match a, b with
+  | Ok x, Ok y => R x y
+  | Err k, Err k' => k = k'
+  | Panic s, Panic s' => s = s'
+  | OutOfFuel, OutOfFuel => True
+  | _, _ => False
+  end.
+
+Lemma outcome_rel_trans : forall {X} (R : X -> X -> Prop),
+  (forall x y z, R x y -> R y z -> R x z) ->
+  forall a b c, outcome_rel R a b -> outcome_rel R b c -> outcome_rel R a c.
+Proof.
+  intros X R HR a b c H1 H2. destruct a, b, c; cbn [outcome_rel] in *; try contradiction; try congruence.
+  eapply HR; eassumption.
+Qed.
+
+(* compute_one_level :192/:194 - HashSet::difference / union: content of the result from the
+   contents of the operands, whatever their iteration orders *)
+Theorem set_ops_content_only : forall a a' b b', same_set a a' -> same_set b b' ->
+  same_set (set_diff a b) (set_diff a' b') /\ same_set (set_union a b) (set_union a' b').
+Proof.
+  intros a a' b b' Ha Hb. split; intro x.
+  - rewrite !In_set_diff. specialize (Ha x). specialize (Hb x). tauto.
+  - rewrite !In_set_union. specialize (Ha x). specialize (Hb x). tauto.
+Qed.
+
+(* an element-wise fallible map whose failures all look alike yields a permuted result, or the
+   same failure, on a permuted list *)
+Lemma omapM_uniform_perm : forall {X Y} (f : X -> outcome Y) site,
+  (forall x, (exists y, f x = Ok y) \/ f x = Panic site) ->
+  forall l l', Permutation l l' -> outcome_rel (@Permutation Y) (omapM f l) (omapM f l').
+Proof.
+  intros X Y f site Hf l l' HPm.
+  induction HPm as [|x l l' HPm IH|x y l|l l' l'' HP1 IH1 HP2 IH2].
+  - cbn. constructor.
+  - cbn [omapM]. destruct (Hf x) as [[y ->]| ->]; cbn [bind outcome_rel]; [|reflexivity].
+    destruct (omapM f l), (omapM f l'); cbn [bind outcome_rel] in *; try assumption.
+    apply perm_skip. exact IH.
+  - cbn [omapM].
+    destruct (Hf x) as [[a ->]| ->], (Hf y) as [[b ->]| ->]; cbn [bind outcome_rel]; try reflexivity.
+    destruct (omapM f l); cbn [bind outcome_rel]; try reflexivity; try exact I. apply perm_swap.
+  - eapply outcome_rel_trans; [|exact IH1|exact IH2]. intros a b c. apply Permutation_trans.
+Qed.
+
+(* convert_usize_partitons_to_t :137-139 - `hs.into_iter().map(..).collect::<HashSet<T>>()`:
+   the renamed community is the same set (the same list up to order), or the same panic *)
+Theorem convert_back_community_order_free :
+  forall {T : Type} (rev_map : list (nat * T)) (hs hs' : list nat), Permutation hs hs' ->
+    outcome_rel (@Permutation T)
+      (omapM (fun u => unwrap_at "louvain.rs:reverse_node_map unwrap" (lookup Nat.eqb u rev_map)) hs)
+      (omapM (fun u => unwrap_at "louvain.rs:reverse_node_map unwrap" (lookup Nat.eqb u rev_map)) hs').
+Proof.
+  intros T rev_map hs hs' HPm.
+  apply (omapM_uniform_perm _ "louvain.rs:reverse_node_map unwrap"); [|exact HPm].
+  intro u. destruct (lookup Nat.eqb u rev_map) as [t|]; cbn [unwrap_at]; [left; eauto | right; reflexivity].
+Qed.
+
+(* generate_graph :425-431 - `for node in part { node2com.insert(node, i); nodes.extend(attr) }`:
+   on a coherent graph the map node2com (as a lookup function) and the set `nodes` (as
+   membership) are the same for every iteration order of the part, and so is the failure *)
+Section PartOrder.
+  Variable g : lgraph.
+  Hypothesis W : WF Nat.eqb Nat.ltb g.
+  Variable i : nat.
+
+  Let found (nd : nat) : bool :=
+    match find (fun n : lnode => Nat.eqb (nname n) nd) (nodes_vec g) with Some _ => true | None => false end.
+
+  Lemma gg_inner_cases : forall n2c nodes nd,
+    gg_inner g i (n2c, nodes) nd =
+    if found nd then Ok (insert Nat.eqb nd i n2c, set_union nodes (attr_of g nd))
+    else Panic "louvain.rs:generate_graph get_node unwrap".
+  Proof.
+    intros n2c nodes nd. unfold gg_inner, attr_of, found.
+    rewrite (get_node_spec Nat.eqb Nat.ltb neqb_spec g nd W).
+    destruct (find (fun n : lnode => Nat.eqb (nname n) nd) (nodes_vec g)); reflexivity.
+  Qed.
+
+  Lemma gg_inner_all_found : forall part acc,
+    forallb found part = true -> exists r, ofold (gg_inner g i) part acc = Ok r.
+  Proof.
+    induction part as [|nd t IH]; intros [n2c nodes] H; cbn [ofold]; [eauto|].
+    cbn [forallb] in H. apply andb_true_iff in H. destruct H as [H1 H2].
+    rewrite gg_inner_cases, H1. cbn [bind]. apply IH. exact H2.
+  Qed.
+
+  Lemma gg_inner_some_missing : forall part acc,
+    forallb found part = false ->
+    ofold (gg_inner g i) part acc = Panic "louvain.rs:generate_graph get_node unwrap".
+  Proof.
+    induction part as [|nd t IH]; intros [n2c nodes] H; cbn [ofold forallb] in *; [discriminate|].
+    rewrite gg_inner_cases. destruct (found nd); cbn [bind]; [|reflexivity].
+    apply IH. exact H.
+  Qed.
+
+  Lemma forallb_perm : forall {X} (p : X -> bool) l l', Permutation l l' -> forallb p l = forallb p l'.
+  Proof.
+    intros X p l l' HPm. induction HPm; cbn [forallb]; try congruence.
+    - destruct (p x), (p y); reflexivity.
+  Qed.
+
+  Theorem generate_graph_part_order_free : forall part part' n2c,
+    Permutation part part' ->
+    outcome_rel (fun r r' : list (nat * nat) * list nat =>
+                   (forall u, lookup Nat.eqb u (fst r) = lookup Nat.eqb u (fst r')) /\ same_set (snd r) (snd r'))
+                (ofold (gg_inner g i) part (n2c, [])) (ofold (gg_inner g i) part' (n2c, [])).
+  Proof.
+    intros part part' n2c HPm. pose proof (forallb_perm found part part' HPm) as Ef.
+    destruct (forallb found part) eqn:E.
+    - destruct (gg_inner_all_found part (n2c, []) E) as [[m1 s1] H1].
+      destruct (gg_inner_all_found part' (n2c, []) (eq_sym Ef)) as [[m2 s2] H2].
+      rewrite H1, H2. cbn [outcome_rel fst snd].
+      destruct (gg_inner_ok g i part n2c [] m1 s1 H1 (NoDup_nil _)) as [_ [I1 L1]].
+      destruct (gg_inner_ok g i part' n2c [] m2 s2 H2 (NoDup_nil _)) as [_ [I2 L2]].
+      assert (Hmem : forall u, mem Nat.eqb u part = mem Nat.eqb u part').
+      { intro u. destruct (mem Nat.eqb u part) eqn:M1, (mem Nat.eqb u part') eqn:M2; try reflexivity.
+        - apply mem_nat_In in M1. apply (Permutation_in _ HPm) in M1. apply mem_nat_In in M1. congruence.
+        - apply mem_nat_In in M2. apply (Permutation_in _ (Permutation_sym HPm)) in M2.
+          apply mem_nat_In in M2. congruence. }
+      split.
+      + intro u. rewrite L1, L2, Hmem. reflexivity.
+      + intro x. rewrite I1, I2. split; (intros [[]|[u [Hu Hx]]]; right; exists u; split; [|exact Hx]).
+        * apply (Permutation_in _ HPm). exact Hu.
+        * apply (Permutation_in _ (Permutation_sym HPm)). exact Hu.
+    - rewrite (gg_inner_some_missing part (n2c, []) E).
+      rewrite (gg_inner_some_missing part' (n2c, []) (eq_sym Ef)). reflexivity.
+  Qed.
+End PartOrder.
 
 (* ---------------- non-vacuity: concrete non-identity oracles ---------------- *)
 
